@@ -8,9 +8,11 @@ open TomlVerif TomlVerif.Spec TomlVerif.Model TomlVerif.Model.Strings TomlVerif.
 def keyvalLine (st : ParseState) (s : Bytes) : Option (ParseState × Bytes) :=
   match keyPath s with
   | .ok ks r =>
+    -- check_recursion_nested(path.len() - 1, …)
+    if LIMIT ≤ ks.length - 1 then none else
     match r with
     | 0x3D :: r1 =>
-      match value (3 * r1.length + 4) 0 (dropWs r1) with
+      match value (3 * r1.length + 4) (ks.length - 1) (dropWs r1) with
       | .ok v r2 =>
         match lineTrailing r2 with
         | .ok () r3 =>
